@@ -222,6 +222,7 @@ pub fn make_case(channel: &str, lines: &[String], content: &[u8], cfg: &Cfg, rng
         events: vec![],
         dchunk: vec![],
         env: vec![],
+        file_name: String::new(),
         note: String::new(),
     }
 }
@@ -243,6 +244,7 @@ pub fn make_probe_case(content: &[u8], cfg: &Cfg, rng: &mut Rng) -> Case {
         events: vec![],
         dchunk: vec![],
         env: vec![],
+        file_name: String::new(),
         note: String::new(),
     }
 }
@@ -373,3 +375,7 @@ pub fn random_env(rng: &mut Rng) -> Vec<(String, String)> {
     }
     v
 }
+
+/// File names a user's file may have; the name must not matter. (No leading/trailing blanks: `-f -` trims the
+/// path it reads, by design. No leading hyphen: clap would take it for an option.)
+pub const FILE_NAMES: &[&str] = &["cases.txt", "with space.txt", "ünïcödé-日本.txt", "a,b;c.txt", "x=y&z.txt", "tab\tin name.txt", "quote'\"name.txt", ".hidden", "UPPER.TXT", "no-extension"];
